@@ -1,6 +1,8 @@
 package main
 
 import (
+	"context"
+	"crypto/tls"
 	"encoding/json"
 	"fmt"
 	"math/rand"
@@ -12,6 +14,7 @@ import (
 	"time"
 
 	"github.com/hslam/rpc"
+	"github.com/hslam/socket"
 	"verif/harness/mon"
 	"verif/harness/rig"
 	"verif/harness/scen"
@@ -141,6 +144,38 @@ func startReal(cfg rig.Config, seed int64) (*rig.Rig, error) {
 	return nil, last
 }
 
+// dialByHand builds a client connection by hand, so that the caller keeps the
+// message layer (to send a frame below the client library) and the raw
+// network connection (to cut the link in the middle of a frame or TLS record).
+func dialByHand(cfg rig.Config, r *rig.Rig) (*rpc.Conn, socket.Messages, net.Conn, error) {
+	network := "tcp"
+	if cfg.Network == "unix" {
+		network = "unix"
+	}
+	raw, err := net.DialTimeout(network, r.Addr, 3*time.Second)
+	if err != nil {
+		return nil, nil, nil, err
+	}
+	var rwc net.Conn = raw
+	if cfg.TLS {
+		tc := tls.Client(raw, rpc.SkipVerifyTLSConfig())
+		raw.SetDeadline(time.Now().Add(5 * time.Second))
+		if err := tc.Handshake(); err != nil {
+			raw.Close()
+			return nil, nil, nil, err
+		}
+		raw.SetDeadline(time.Time{})
+		rwc = tc
+	}
+	msgs := socket.NewMessages(rwc, false)
+	var enc rpc.Encoder
+	if f := svc.NewEncoder(cfg.Header); f != nil {
+		enc = f()
+	}
+	conn := rpc.NewConnWithCodec(rpc.NewClientCodec(svc.NewCodec(cfg.Codec)(), enc, msgs, 0))
+	return conn, msgs, raw, nil
+}
+
 func init() {
 	engines["pollstream"] = pollStreamEngine
 	engines["real"] = realEngine
@@ -158,87 +193,194 @@ func pollStreamEngine(a Args) {
 	if x.N < 1 {
 		x.N = 20
 	}
-	rng := rand.New(rand.NewSource(a.Seed*313 + 5))
 	for i := 0; i < x.N; i++ {
-		cfg := rig.Config{Network: []string{"tcp", "unix"}[rng.Intn(2)], Header: wire.Formats[rng.Intn(4)], Codec: svc.Codecs[rng.Intn(4)],
-			SrvPoll: i%4 != 3, SrvPipelining: rng.Intn(2) == 0, SrvDirect: rng.Intn(2) == 0, Pushes: []int{0, 1}}
-		cs := fmt.Sprintf("pollstream/%d/%s", i, cfg)
-		if !want(a, cs) {
-			continue
+		// one case at a time, each bounded as a whole: setup steps on a
+		// poll-mode server (TLS handshake, first request of a connection) can
+		// stall for ever in the dependency; such a case is inconclusive and
+		// must not hold the rest of the check
+		i := i
+		done := make(chan struct{})
+		var cs atomic.Value
+		cs.Store(fmt.Sprintf("pollstream/%d", i))
+		go func() {
+			defer close(done)
+			pollStreamCase(a, i, &cs)
+		}()
+		select {
+		case <-done:
+		case <-time.After(90 * time.Second):
+			mon.Emit(mon.Result{T: "case", Engine: "pollstream", Case: cs.Load().(string), Verdict: mon.Inconclusive, What: "the case did not finish within 90 s of real time (a setup step stalled in the poll-mode server)"})
 		}
-		mon.Progress("pollstream", cs)
-		r, err := startReal(cfg, a.Seed)
-		if err != nil {
-			mon.Emit(mon.Result{T: "case", Engine: "pollstream", Case: cs, Verdict: mon.Inconclusive, What: "server did not start: " + fmt.Sprint(err)})
-			continue
-		}
-		conn, err := r.Dial()
-		if err != nil {
-			mon.Emit(mon.Result{T: "case", Engine: "pollstream", Case: cs, Verdict: mon.Inconclusive, What: "dial: " + err.Error()})
-			r.Server.Close()
-			continue
-		}
-		k := 1 + rng.Intn(4)
-		var clientBlocked int32
-		for s := 0; s < k; s++ {
-			st, err := conn.NewStream(svc.StreamMethod(s%2, cfg.Codec))
-			if err != nil {
-				continue
-			}
-			box := svc.NewBox(cfg.Codec)
-			for p := 0; p < s%2; p++ {
-				st.ReadMessage(nil, box.Ptr())
-			}
-			box.Set(svc.StreamMsg(uint64(i)<<8|uint64(s+1), svc.DirUp, 0, svc.KindEcho, 0, 60))
-			st.WriteMessage(box.Ptr())
-			st.ReadMessage(nil, box.Ptr())
-			atomic.AddInt32(&clientBlocked, 1)
-			go func() {
-				b := svc.NewBox(cfg.Codec)
-				for st.ReadMessage(nil, b.Ptr()) == nil {
-				}
-				atomic.AddInt32(&clientBlocked, -1)
-			}()
-		}
-		_, running := r.Ledger.Running()
-		how := []string{"close", "close-after-write"}[rng.Intn(2)]
-		conn.Close()
-		// wait for the handlers, probing the server's responsiveness meanwhile
-		probes := 0
-		deadline := time.Now().Add(8 * time.Second)
-		exited := false
-		for time.Now().Before(deadline) {
-			if _, s := r.Ledger.Running(); s == 0 && atomic.LoadInt32(&clientBlocked) == 0 {
-				exited = true
-				break
-			}
-			if c2, err := rpc.DialWithOptions(r.Addr, r.Options()); err == nil {
-				rec := rig.Do(c2, rig.FormCall, cfg.Codec, rig.Method(cfg.Codec, 0), svc.Spec{Run: uint32(i), Conn: 7, Caller: 7, Counter: uint64(probes)}, 0, nil)
-				if rec.Err == nil {
-					probes++
-				}
-				c2.Close()
-			}
-			time.Sleep(2 * time.Millisecond)
-		}
-		verdict, what, fsig := mon.Held, "", ""
-		if !exited {
-			_, s := r.Ledger.Running()
-			if probes >= 20 {
-				verdict = mon.Violated
-				what = fmt.Sprintf("%d of %d stream handlers are still blocked in ReadMessage %v after the client disconnected (%s), while %d complete dial+call round trips through the same server succeeded meanwhile; %d client readers still blocked [%s]",
-					s, running, 8*time.Second, how, probes, atomic.LoadInt32(&clientBlocked), cfg)
-				fsig = fmt.Sprintf("C10/pollstream/handler-blocked/poll=%v", cfg.SrvPoll)
-			} else {
-				verdict = mon.Inconclusive
-				what = fmt.Sprintf("handlers not exited but only %d probes completed", probes)
-			}
-		}
-		mon.Emit(mon.Result{T: "case", Engine: "pollstream", Case: cs, Verdict: verdict, Prop: "C10", What: what, FSig: fsig, Sig: cfg.String(), Nontrivial: true,
-			Stats: map[string]int64{"poll_streams": int64(k), "poll_probes": int64(probes)}})
+	}
+}
+
+type pollOutcome struct {
+	err      string // setup problem (inconclusive)
+	exited   bool
+	probes   int
+	running  int // stream handlers running when the client went away
+	blockedS int // stream handlers still blocked at the end
+	blockedC int // client readers still blocked at the end
+}
+
+// pollOnce runs one "client with open streams goes away" scenario.
+func pollOnce(cfg rig.Config, i int, seed int64, k int, how string) pollOutcome {
+	var o pollOutcome
+	r, err := startReal(cfg, seed)
+	if err != nil {
+		o.err = "server did not start: " + fmt.Sprint(err)
+		return o
+	}
+	defer func() {
 		r.Server.Close()
 		time.Sleep(5 * time.Millisecond)
+	}()
+	conn, msgs, raw, err := dialByHand(cfg, r)
+	if err != nil {
+		o.err = "dial: " + err.Error()
+		return o
 	}
+	var clientBlocked int32
+	for s := 0; s < k; s++ {
+		st, err := conn.NewStream(svc.StreamMethod(s%2, cfg.Codec))
+		if err != nil {
+			continue
+		}
+		box := svc.NewBox(cfg.Codec)
+		for p := 0; p < s%2; p++ {
+			st.ReadMessage(nil, box.Ptr())
+		}
+		box.Set(svc.StreamMsg(uint64(i)<<8|uint64(s+1), svc.DirUp, 0, svc.KindEcho, 0, 60))
+		st.WriteMessage(box.Ptr())
+		st.ReadMessage(nil, box.Ptr())
+		atomic.AddInt32(&clientBlocked, 1)
+		go func() {
+			b := svc.NewBox(cfg.Codec)
+			for st.ReadMessage(nil, b.Ptr()) == nil {
+			}
+			atomic.AddInt32(&clientBlocked, -1)
+		}()
+	}
+	_, o.running = r.Ledger.Running()
+	// how the client goes away: an orderly Close; a Close after a frame
+	// whose header cannot be decoded (dropped by a correct server, the
+	// connection survives it); or the link cut in the middle of a frame /
+	// of a TLS record
+	switch how {
+	case "garbage-frame-then-close":
+		msgs.WriteMessage([]byte{0x09, 0x01, 0x02})
+		time.Sleep(20 * time.Millisecond)
+		conn.Close()
+	case "cut-mid-frame":
+		if cfg.TLS {
+			raw.Write(append([]byte{0x17, 0x03, 0x03, 0x00, 0x64}, make([]byte, 10)...))
+		} else {
+			raw.Write(wire.AppendFrame(nil, make([]byte, 100))[:14])
+		}
+		raw.Close()
+	default:
+		conn.Close()
+	}
+	// wait for the handlers, probing the server's responsiveness meanwhile
+	deadline := time.Now().Add(8 * time.Second)
+	for time.Now().Before(deadline) {
+		if _, s := r.Ledger.Running(); s == 0 && atomic.LoadInt32(&clientBlocked) == 0 {
+			o.exited = true
+			break
+		}
+		// one complete dial+call round trip, bounded as a whole: the TLS
+		// handshake or the first request on a fresh netpoll connection is
+		// occasionally never served (see startReal); an abandoned probe
+		// just does not count
+		okc := make(chan bool, 1)
+		np := o.probes
+		go func() {
+			c2, err := rpc.DialWithOptions(r.Addr, r.Options())
+			if err != nil {
+				okc <- false
+				return
+			}
+			pctx, pcancel := context.WithTimeout(context.Background(), 2*time.Second)
+			rec := rig.Do(c2, rig.FormCtx, cfg.Codec, rig.Method(cfg.Codec, 0), svc.Spec{Run: uint32(i), Conn: 7, Caller: 7, Counter: uint64(np)}, 0, &rig.DoOpt{Ctx: pctx})
+			pcancel()
+			c2.Close()
+			okc <- rec.Err == nil
+		}()
+		select {
+		case ok := <-okc:
+			if ok {
+				o.probes++
+			}
+		case <-time.After(3 * time.Second):
+		}
+		time.Sleep(2 * time.Millisecond)
+	}
+	_, o.blockedS = r.Ledger.Running()
+	o.blockedC = int(atomic.LoadInt32(&clientBlocked))
+	return o
+}
+
+var pollHows = []string{"close", "garbage-frame-then-close", "cut-mid-frame"}
+
+func pollStreamCase(a Args, i int, csv *atomic.Value) {
+	rng := rand.New(rand.NewSource(a.Seed*313 + 5 + int64(i)*7919))
+	cfg := rig.Config{Network: []string{"tcp", "unix"}[rng.Intn(2)], Header: wire.Formats[rng.Intn(4)], Codec: svc.Codecs[rng.Intn(4)],
+		SrvPoll: i%4 != 3, SrvPipelining: rng.Intn(2) == 0, SrvDirect: rng.Intn(2) == 0, Pushes: []int{0, 1}, TLS: rng.Intn(3) == 0}
+	k := 1 + rng.Intn(4)
+	how := pollHows[rng.Intn(3)]
+	if a.Prop == "C12" {
+		// C12: the same scenario with and without TLS must end the same way
+		cfg.TLS = false
+		cs := fmt.Sprintf("pollstream/%d/%s/tls-vs-plain/%s", i, cfg, how)
+		if !want(a, cs) {
+			return
+		}
+		csv.Store(cs)
+		mon.Progress("pollstream", cs)
+		plain := pollOnce(cfg, i, a.Seed, k, how)
+		cfg.TLS = true
+		withTLS := pollOnce(cfg, i, a.Seed, k, how)
+		verdict, what, fsig := mon.Held, "", ""
+		switch {
+		case plain.err != "" || withTLS.err != "":
+			verdict, what = mon.Inconclusive, plain.err+" "+withTLS.err
+		case plain.exited && !withTLS.exited && withTLS.probes >= 20:
+			verdict = mon.Violated
+			what = fmt.Sprintf("the same scenario (%d streams with blocked handlers, client goes away by %s) ends differently with TLS: over the plain network every handler returned, over TLS %d of %d stream handlers are still blocked 8s later while %d dial+call round trips through the same server succeeded [%s]",
+				k, how, withTLS.blockedS, withTLS.running, withTLS.probes, cfg)
+			fsig = "C12/pollstream/tls-differs/" + how
+		case plain.exited != withTLS.exited:
+			verdict, what = mon.Inconclusive, fmt.Sprintf("outcomes differ (plain exited=%v, tls exited=%v) but too few probes completed (%d/%d)", plain.exited, withTLS.exited, plain.probes, withTLS.probes)
+		}
+		mon.Emit(mon.Result{T: "case", Engine: "pollstream", Case: cs, Verdict: verdict, Prop: "C12", What: what, FSig: fsig, Sig: cfg.String() + "/" + how, Nontrivial: true,
+			Stats: map[string]int64{"poll_streams": int64(2 * k), "poll_probes": int64(plain.probes + withTLS.probes), "tls_vs_plain_pairs": 1}})
+		return
+	}
+	cs := fmt.Sprintf("pollstream/%d/%s", i, cfg)
+	if !want(a, cs) {
+		return
+	}
+	csv.Store(cs)
+	mon.Progress("pollstream", cs)
+	o := pollOnce(cfg, i, a.Seed, k, how)
+	if o.err != "" {
+		mon.Emit(mon.Result{T: "case", Engine: "pollstream", Case: cs, Verdict: mon.Inconclusive, What: o.err})
+		return
+	}
+	verdict, what, fsig := mon.Held, "", ""
+	if !o.exited {
+		if o.probes >= 20 {
+			verdict = mon.Violated
+			what = fmt.Sprintf("%d of %d stream handlers are still blocked in ReadMessage %v after the client disconnected (%s), while %d complete dial+call round trips through the same server succeeded meanwhile; %d client readers still blocked [%s]",
+				o.blockedS, o.running, 8*time.Second, how, o.probes, o.blockedC, cfg)
+			fsig = fmt.Sprintf("C10/pollstream/handler-blocked/poll=%v", cfg.SrvPoll)
+		} else {
+			verdict = mon.Inconclusive
+			what = fmt.Sprintf("handlers not exited but only %d probes completed", o.probes)
+		}
+	}
+	mon.Emit(mon.Result{T: "case", Engine: "pollstream", Case: cs, Verdict: verdict, Prop: "C10", What: what, FSig: fsig, Sig: cfg.String(), Nontrivial: true,
+		Stats: map[string]int64{"poll_streams": int64(k), "poll_probes": int64(o.probes)}})
 }
 
 type realExtra struct {
